@@ -103,11 +103,11 @@ func init() {
 					}
 					if r.Intn(4) == 0 {
 						c["flags"] = []string{"-cp"}
-					} else if r.Intn(4) == 0 { // counting the models of an OPB file (the objective plays no role)
+					} else if r.Intn(5) < 2 { // counting the models of an OPB file (the objective plays no role)
 						c["flags"], c["mode"] = []string{"-count"}, "count"
-						if r.Intn(2) == 0 { // constraints that fix variables, several times
+						if r.Intn(3) > 0 { // constraints that fix variables, several times
 							cons = nil
-							for j := 0; j < 1+r.Intn(4); j++ {
+							for j := 0; j < 2+r.Intn(4); j++ {
 								l := gen.RandLit(r, n)
 								cons = append(cons, gen.Ctor("gteq", []int{l}, []int{1 + r.Intn(2)}, 1))
 							}
